@@ -87,6 +87,7 @@ class State:
         self.counter = {}
         self.obligations = []
         self.ghost = {}
+        self.ghost_init = {}
         self.held = {}
         self.defs = {}     # symbol name -> list of defining facts (constants)
         self.inputs = []   # descriptors of input symbols, for counterexamples
@@ -173,9 +174,16 @@ class State:
     def oblige(self, name, goal, kind="explicit"):
         goal = simp(goal)
         if goal is True:
-            self.obligations.append(dict(name=name, trivial=True))
+            self.obligations.append(dict(name=name, trivial=True, backend="syntactic", secs=0.0))
             return
         goal = zbool(goal)
+        import time as _t
+        t0 = _t.time()
+        if self.check_sat(z3.Not(goal)) == z3.unsat:
+            # closed by the path solver itself: quantifier-free hypotheses only (no axioms were needed)
+            self.obligations.append(dict(name=name, trivial=True, backend="z3-path", secs=_t.time() - t0))
+            self.assume(goal)
+            return
         self.obligations.append(dict(name=name, hyps=list(self.pc), goal=goal, defs=dict(self.defs),
                                      inputs=list(self.inputs), trivial=False, kind=kind))
         # continue under the assumption that it holds (standard)
